@@ -21,8 +21,9 @@ from pathlib import Path
 
 V = Path(__file__).resolve().parent.parent
 REPO = Path(os.environ.get("VERIF_REPO", ""))
-SHARED = {"C01": ["C01", "C02", "C15", "C17"], "C02": ["C01", "C02", "C15"], "C15": ["C15", "C01"], "C17": ["C17", "C15"],
-          "C03": ["C03", "C04", "C11"], "C04": ["C03", "C04", "C11"], "C11": ["C11", "C03"], "C05": ["C05", "C13", "C06"],
+SHARED = {"C01": ["C01", "C02", "C15", "C17", "C16"], "C02": ["C01", "C02", "C15", "C16"], "C15": ["C15", "C01", "C16"],
+          "C17": ["C17", "C15", "C18"], "C14": ["C14", "C11"], "C16": ["C16", "C15"], "C18": ["C18", "C03", "C17"],
+          "C03": ["C03", "C04", "C11"], "C04": ["C03", "C04", "C11"], "C11": ["C11", "C03", "C14"], "C05": ["C05", "C13", "C06"],
           "C06": ["C06", "C05", "C19"], "C13": ["C13", "C05"], "C19": ["C19", "C06", "C12"], "C12": ["C12", "C19"],
           "C07": ["C07", "C08"], "C08": ["C08", "C07"], "C09": ["C09", "C07"]}
 
